@@ -547,12 +547,17 @@ class Machine:
 
 
 def _as_load(t):
-    import copy
-    t2 = copy.deepcopy(t)
-    for x in ast.walk(t2):
-        if hasattr(x, 'ctx'):
-            x.ctx = ast.Load()
-    return t2
+    """The target of an augmented assignment as an expression to read
+    (only the outer node carries the Store context)."""
+    if isinstance(t, ast.Name):
+        return ast.copy_location(ast.Name(id=t.id, ctx=ast.Load()), t)
+    if isinstance(t, ast.Attribute):
+        return ast.copy_location(ast.Attribute(
+            value=t.value, attr=t.attr, ctx=ast.Load()), t)
+    if isinstance(t, ast.Subscript):
+        return ast.copy_location(ast.Subscript(
+            value=t.value, slice=t.slice, ctx=ast.Load()), t)
+    raise Unknown('augmented assignment target')
 
 
 def run_function(fn, env, stubs=None):
